@@ -53,9 +53,13 @@ class C13(Prop):
                   "reserved, grease never collides; a number >= 2^62 makes build return an error with nothing written (after "
                   "the D-13 repair); for every received payload the decoder agrees with the RFC 9114 7.2.4 oracle (truncated "
                   "-> connection error, reserved / repeated supported id -> H3_SETTINGS_ERROR, else applied exactly, unknown "
-                  "ids ignored, never Exceeded); defaults until the first set, first value for ever; decode(encode s) = s")
+                  "ids ignored, never Exceeded); defaults until the first set, first value for ever; decode(encode s) = s; "
+                  "for every acceptance script of the transport the peer sees a prefix of that header and exactly the header "
+                  "once write returns (WriteBuf model of C14, drain_spec); streams with an incomplete header accepted before "
+                  "the control stream are passed over by the scan of poll_accept_recv (any number of them)")
     level_note = ("trusted: Lean kernel + 3 standard axioms; hand-written models tied to the code by the differential run (full "
-                  "builder product in both roles over the real connection setup on an in-memory transport; received payloads "
+                  "builder product in both roles over the real connection setup on an in-memory transport, also with the "
+                  "transport taking the header in pieces; received payloads "
                   "through the real Frame::decode and through a real connection's control stream) and by the translator "
                   "(SETTINGS_LEN, WRITE_BUF_ENCODE_SIZE, supported/reserved id lists, grease formula, config defaults "
                   "regenerated from source); reading R-13: repeated unknown ids may be ignored or rejected; boolean-valued "
@@ -67,6 +71,13 @@ class C13(Prop):
             "unknown ids, every truncation, all 1- and 2-byte payloads, random bytes and random "
             "structured payloads; set enc = insert sequences incl. repeats, >8 entries, >= 2^62, WriteBuf overflow; set cell / "
             "set apply (every cut position) / set apply2 through SharedState and a real connection in both roles; "
+            "second round: set applyq = 1..3 (random: up to 7) other unidirectional streams with an incomplete header (no byte, "
+            "partial type, WebTransport / push type without its second integer) accepted BEFORE the control stream, both roles, "
+            "whole / cut SETTINGS; long payloads = 0..7 understood + up to 400 distinct unknown / grease identifiers, all varint "
+            "forms, exact sizes 40..43, 62..65, 126..130, 143..145, 255..257, 1000, 1023..1025, 4000, 16383, 16384, with a "
+            "repeated / reserved identifier or a cut behind them, at function level and through a real connection (cuts at "
+            "128..132); set cfgw = the builder product under back-pressure: the transport takes the control stream header k "
+            "bytes per poll (k in 1,2,3,5,7,8,11,41,64, mixed and random patterns, polls without credit in between); "
             "non-trivial = implementation result is not bad-op/bad-case/setup-failed/pending; distinct = distinct case lines")
     trusted = ["sim.rs in-memory QUIC transport (delivers and records bytes verbatim)",
                "fastrand 2.x thread-local generator: same seed, same first draw (the grease identifier of a case line)",
@@ -84,7 +95,7 @@ class C13(Prop):
             raise RuntimeError("set gid pre-pass failed: rc=%s %s" % (rc, out[:3]))
         return dict(zip(seeds, (int(o) for o in out)))
 
-    def _cfg_lines(self, tier, rng):
+    def _cfg_raw(self, tier, rng, nrandom):
         raw = []  # (role, tokens, grease_on)
         for g in (0, 1):
             for mfs in VALUES:
@@ -105,7 +116,7 @@ class C13(Prop):
         raw.append(("server", ["wts=7"], 1))
         raw.append(("server", ["wts=%d" % 2**62], 1))
         # neighbours of the boundaries and random values
-        for _ in range(20000 if tier == "thorough" else 2000):
+        for _ in range(nrandom):
             role = rng.choice(("server", "client"))
             g = rng.randrange(2)
             val = lambda: rng.choice([rng.getrandbits(rng.choice([6, 14, 30, 62, 64])),
@@ -115,6 +126,10 @@ class C13(Prop):
                 t += ["wt=%d" % rng.randrange(2), "wts=%d" % val()]
             rng.shuffle(t)
             raw.append((role, t, g))
+        return raw
+
+    def _cfg_render(self, raw, rng, head):
+        """case lines for the raw configurations; `head(i, role)` = the tokens in front of the keys"""
         seeds = {}
         for i, (_, _, g) in enumerate(raw):
             if g:
@@ -124,7 +139,12 @@ class C13(Prop):
         for i, (role, t, g) in enumerate(raw):
             if g:
                 t = t + ["seed=%d" % seeds[i], "gid=%d" % gid[seeds[i]]]
-            L.append(" ".join(["set", "cfg", role] + t))
+            L.append(" ".join(head(i, role) + t))
+        return L
+
+    def _cfg_lines(self, tier, rng):
+        raw = self._cfg_raw(tier, rng, 20000 if tier == "thorough" else 2000)
+        L = self._cfg_render(raw, rng, lambda i, role: ["set", "cfg", role])
         # malformed lines answer bad-op on both sides
         L.append("set cfg client mfs=0 wt=1 grease=0")
         L.append("set cfg server mfs=5")
@@ -223,6 +243,180 @@ class C13(Prop):
             P.append([rng.randrange(256) for _ in range(rng.randrange(0, 25))])
         return P
 
+
+    # ------------------------------------------------------------------ second-round generators (seeds2/C13)
+
+    # stream headers on which `poll_type` answers Pending: nothing yet; first byte of a 2- / 4- / 8-byte type; the
+    # WebTransport type (1- and 2-byte form) or the push type without the second integer; WebTransport type + a partial id
+    PRE_BASIC = ["-", "40", "4054", "54", "01"]
+    PRE_MORE = ["80", "c0", "800000", "c0000000000000", "5440", "405480", "0140", "4001", "bf00", "bf"]
+    PATTERNS = ["1", "2", "3", "5", "7", "11", "10,7", "1,0,2", "8", "13,1", "0,1", "4,4,1", "20,20", "41", "64"]
+
+    def _cfgw_lines(self, tier, rng):
+        """connection setup under back-pressure: the transport takes the control stream header in pieces"""
+        big = tier == "thorough"
+        raw = self._cfg_raw(tier, rng, 6000 if big else 1200)
+        pats = {}
+        det = [i for i, (_, t, _) in enumerate(raw)]
+        for i in det:
+            # every configuration of the product with one fixed pattern (round robin), every 13th with all of them,
+            # the random ones with random patterns
+            pats[i] = self.PATTERNS[i % len(self.PATTERNS)]
+        extra = []
+        for i, (role, t, g) in enumerate(raw):
+            if i % 13 == 0:
+                for ptn in self.PATTERNS:
+                    if ptn != pats[i]:
+                        extra.append((role, t, g, ptn))
+            if rng.random() < (0.6 if big else 0.3):
+                n = rng.randrange(1, 7)
+                extra.append((role, t, g, ",".join(str(rng.choice([0, 1, 1, 2, 3, 4, 5, 6, 7, 9, 12, 17, 30])) for _ in range(n))))
+        base = len(raw)
+        raw2 = raw + [(role, t, g) for role, t, g, _ in extra]
+        for j, (_, _, _, ptn) in enumerate(extra):
+            pats[base + j] = ptn
+        L = self._cfg_render(raw2, rng, lambda i, role: ["set", "cfgw", role, pats[i]])
+        L.append("set cfgw server 0 grease=0")            # never a byte of credit: setup keeps waiting
+        L.append("set cfgw server 65 grease=0")           # malformed lines answer bad-op on both sides
+        L.append("set cfgw client 1 wt=1 grease=0")
+        L.append("set cfgw server - grease=0")
+        return L
+
+    def _long_payloads(self, tier, rng):
+        """received SETTINGS far beyond what h3 itself sends: many unknown / grease identifiers, long varint forms"""
+        big = tier == "thorough"
+        one_byte_unknown = [i for i in range(9, 64) if i != 0x33]
+        P = []
+
+        def unknown(used):
+            """an identifier h3 does not know, not in `used` (a repeated unknown identifier has two readings, R-13)"""
+            while True:
+                c = rng.random()
+                if c < 0.4:
+                    i = 0x21 + 31 * rng.getrandbits(rng.choice([5, 9, 20, 40, 56]))
+                elif c < 0.5:
+                    i = rng.choice(UNKNOWN)
+                else:
+                    i = rng.getrandbits(rng.choice([6, 14, 30, 62]))
+                if i not in SUPPORTED and i not in RESERVED and i not in used:
+                    used.add(i)
+                    return i
+
+        def next2(used, ctr):
+            """an unused identifier with a two-byte encoding"""
+            while ctr[0] in used:
+                ctr[0] += 1
+            used.add(ctr[0])
+            return ctr[0]
+
+        def mixed(nknown, nunknown, longforms):
+            used = set()
+            known = [(i, rng.choice([0, 1, 1, 63, 64, 70000, 2**62 - 1])) for i in rng.sample(SUPPORTED, nknown)]
+            unk = [(unknown(used), rng.choice([0, 1, 7, 2**30, rng.getrandbits(62)])) for _ in range(nunknown)]
+            pairs = known + unk
+            rng.shuffle(pairs)
+            return payload(pairs, rng if longforms else None)
+
+        def sized(target, nknown):
+            """a valid payload of exactly `target` bytes: `nknown` understood identifiers, distinct unknown ones around them"""
+            known = [(i, rng.choice([0, 1, 5, 63])) for i in rng.sample([6, 1, 7, 8, 0x33], nknown)]
+            out = [vi(i) + vi(v) for i, v in known]
+            left = target - sum(len(e) for e in out)
+            short = list(one_byte_unknown)
+            rng.shuffle(short)
+            used = set(short)
+            ctr = [64]
+            while left >= 2:
+                if left in (2, 5) or (len(short) > 3 and left < 16 and left != 3):
+                    e = vi(short.pop()) + vi(rng.randrange(64))                 # 2 bytes
+                elif left == 3:
+                    e = vi(short.pop()) + vi(rng.randrange(64), 1)              # 3 bytes
+                elif (left == 16 or left >= 18) and rng.random() < 0.5:
+                    e = vi(unknown(used), 3) + vi(rng.getrandbits(62), 3)       # 16 bytes
+                elif left == 4 or left >= 7 and rng.random() < 0.5:
+                    e = vi(next2(used, ctr), 1) + vi(rng.randrange(64), 1)           # 4 bytes
+                else:
+                    e = vi(next2(used, ctr), 1) + vi(rng.randrange(64))              # 3 bytes
+                out.append(e)
+                left -= len(e)
+            rng.shuffle(out)
+            flat = [b for e in out for b in e]
+            assert len(flat) == target or target < 2 + sum(len(vi(i) + vi(v)) for i, v in known), (target, len(flat))
+            return flat
+
+        # the demonstrations of the seeded change: 3 understood + 14 unknown; 9 entries in the 8-byte form (144 bytes)
+        P.append(payload([(6, 4096), (8, 1), (0x33, 1)] + [(0x21 + 31 * (1000003 * k + 7), k) for k in range(14)]))
+        nine = [(i, 1) for i in SUPPORTED] + [(0x21 + 31 * 5, 0), (0xFFD277, 1)]
+        P.append([b for i, v in nine for b in vi(i, 3) + vi(v, 3)])
+        for f in range(4):
+            P.append([b for i, v in nine for b in vi(i, max(f, forms(i)[0])) + vi(v, f)])
+        # sizes around the bounds an implementation might confuse with a limit (8 slots x 2 x 8 = 128; 42; 64; 255/256)
+        for t in [40, 41, 42, 43, 62, 63, 64, 65, 126, 127, 128, 129, 130, 143, 144, 145, 255, 256, 257, 1000, 1023, 1024, 1025,
+                  4000, 16383, 16384]:
+            for nk in ((0, 1, 3, 5) if t < 2000 else (3,)):
+                P.append(sized(t, nk))
+        # many entries: up to a few hundred unknown identifiers around 0..7 understood ones
+        for nunk in [14, 20, 50, 100, 200, 300, 400]:
+            for nk in (0, 3, 7):
+                for lf in (False, True):
+                    P.append(mixed(nk, nunk, lf))
+        for _ in range(400 if big else 60):
+            P.append(mixed(rng.randrange(0, 8), rng.randrange(9, 120), rng.random() < 0.5))
+        for _ in range(200 if big else 40):
+            P.append(sized(rng.randrange(100, 600), rng.randrange(0, 6)))
+        good = list(P)
+        # the same with what MUST be refused far behind the front: a repeated understood identifier, a reserved one,
+        # a cut inside the last entry
+        for q in rng.sample(good, 40 if big else 16):
+            P.append(q + vi(6, rng.randrange(4)) + vi(1) + vi(6, rng.randrange(4)) + vi(2))
+            P.append(q + vi(rng.choice(RESERVED), rng.randrange(4)) + vi(0))
+            P.append(q + vi(2**40))
+            P.append(q[:-1])
+        return P
+
+    def _second_round(self, tier, rng, P):
+        big = tier == "thorough"
+        L = []
+        # ---- (1) other unidirectional streams, header incomplete, accepted BEFORE the control stream
+        applyp = [payload([(6, 1)]), payload([(6, 2), (8, 1)]), payload([(0x33, 1), (0x2B603742, 1), (0x2B603743, 9)]),
+                  [], payload([(0x21, 5)]), payload([(6, 1), (6, 2)]), payload([(0, 1)]), [6]]
+        seqs = [list(q) for k in (1, 2, 3) for q in itertools.product(self.PRE_BASIC, repeat=k)]
+        for role in ("server", "client"):
+            for qi, q in enumerate(seqs):
+                for pi, p in enumerate(applyp[:3] if len(q) == 3 else applyp):
+                    total = 1 + 1 + len(vi(len(p))) + len(p)
+                    for cut in sorted({0, 1, total // 2, total - 1} if (qi + pi) % 4 == 0 else {0, total // 2}):
+                        L.append("set applyq %s %s %d %s" % (role, hx(p), cut, ",".join(q)))
+            for _ in range(6000 if big else 800):
+                p = rng.choice(applyp) if rng.random() < 0.5 else rng.choice(P)
+                total = 1 + 1 + len(vi(len(p))) + len(p)
+                q = [rng.choice(self.PRE_BASIC + self.PRE_MORE) for _ in range(rng.randrange(1, 8))]
+                L.append("set applyq %s %s %d %s" % (role, hx(p), rng.randrange(0, total + 1), ",".join(q)))
+            L.append("set applyq %s 0601 0 00" % role)           # a complete header is outside this family: bad-op
+            L.append("set applyq %s 0601 0 -,5400" % role)
+            L.append("set applyq %s 0601 0 21" % role)
+        # ---- (2) long payloads: function level, through a real connection (whole / cut / behind waiting streams)
+        LP = self._long_payloads(tier, rng)
+        for p in LP:
+            L.append("set dec " + hx(p))
+        for role in ("server", "client"):
+            for p in LP:
+                total = 1 + 1 + len(vi(len(p))) + len(p)
+                cuts = {0, rng.randrange(1, total)}
+                if total > 131:
+                    cuts.add(rng.choice([3 + 127, 3 + 128, 3 + 129, 131]))
+                for cut in sorted(cuts):
+                    L.append("set apply %s %s %d" % (role, hx(p), cut))
+                if rng.random() < 0.25:
+                    L.append("set applyq %s %s %d %s" % (role, hx(p), rng.randrange(0, total + 1),
+                                                         ",".join(rng.choice(self.PRE_BASIC) for _ in range(rng.randrange(1, 4)))))
+            for a in LP[:6]:
+                L.append("set apply2 %s %s %s" % (role, hx(a), hx(payload([(6, 1)]))))
+                L.append("set cell %s %s" % (hx(a), hx(payload([(6, 1)]))))
+        # ---- (3) setup under back-pressure
+        L += self._cfgw_lines(tier, rng)
+        return L
+
     def cases(self, tier, rng):
         big = tier == "thorough"
         L = self._cfg_lines(tier, rng)
@@ -280,6 +474,7 @@ class C13(Prop):
             for a in applyp[:12]:
                 for b in applyp[:12]:
                     L.append("set apply2 %s %s %s" % (role, hx(a), hx(b)))
+        L += self._second_round(tier, rng, P)
         return L
 
     # ------------------------------------------------------------------ reporting
@@ -292,10 +487,20 @@ class C13(Prop):
         if op == "cfg":
             g = "g1" if "gid=" in line else "g0"
             return "cfg/%s/%s/%s" % (w[2] if len(w) > 2 else "?", g, r)
+        if op == "cfgw":
+            g = "g1" if "gid=" in line else "g0"
+            n = it[-1].split("=")[1] if it and it[-1].startswith("pieces=") else "?"
+            n = n if n in ("0", "1", "2") else "3+"
+            return "cfgw/%s/%s/%s/pieces=%s" % (w[2] if len(w) > 2 else "?", g, r, n)
+        if op == "applyq":
+            k = len(w[5].split(",")) if len(w) > 5 else 0
+            return "applyq/%s/ahead=%d/%s" % (w[2], k, " ".join(it[-2:]) if "closed" in it[-2:] else "open")
         if op == "dec":
+            size = len(w[2]) // 2 if len(w) > 2 and w[2] != "-" else 0
+            sz = "" if size <= 64 else "/65-128" if size <= 128 else "/129+"
             if r == "err" and len(it) >= 3:
-                return "dec/err/" + it[2].split(":")[0]
-            return "dec/" + r
+                return "dec/err/" + it[2].split(":")[0] + sz
+            return "dec/" + r + sz
         if op == "enc":
             hdr = it[it.index("hdr") + 1] if "hdr" in it[:-1] else "?"
             rt = it[it.index("rt") + 1] if "rt" in it[:-1] else "-"
@@ -316,7 +521,7 @@ class C13(Prop):
             h = w[2]
             out.append("set dec " + (h[:-2] or "-"))
             out.append("set dec " + (h[2:] or "-"))
-            for k in (4, 8, 16):
+            for k in (4, 8, 16, 64, 256):
                 if len(h) > k:
                     out.append("set dec " + h[k:])
                     out.append("set dec " + h[:-k])
@@ -336,6 +541,40 @@ class C13(Prop):
                             out.append(" ".join(w[:3] + toks[:i] + ["%s=%d" % (k, nv)] + toks[i + 1:]))
                 elif v == "1":
                     out.append(" ".join(w[:3] + toks[:i] + [k + "=0"] + toks[i + 1:]))
+        elif w[1] == "cfgw" and len(w) >= 4:
+            pat = w[3].split(",")
+            for i in range(len(pat)):
+                if len(pat) > 1:
+                    out.append(" ".join(w[:3] + [",".join(pat[:i] + pat[i + 1:])] + w[4:]))
+            toks = w[4:]
+            for i, t in enumerate(toks):
+                k, _, v = t.partition("=")
+                if k in ("seed", "gid"):
+                    continue
+                if k != "grease":
+                    out.append(" ".join(w[:4] + toks[:i] + toks[i + 1:]))
+                if k == "grease" and v == "1":
+                    out.append(" ".join(w[:4] + [x for x in toks if not x.startswith(("seed=", "gid=", "grease="))] + ["grease=0"]))
+                elif k in ("mfs", "wts") and v.isdigit() and int(v) > 0:
+                    out.append(" ".join(w[:4] + toks[:i] + ["%s=0" % k] + toks[i + 1:]))
+                elif v == "1":
+                    out.append(" ".join(w[:4] + toks[:i] + [k + "=0"] + toks[i + 1:]))
+        elif w[1] == "applyq" and len(w) == 6:
+            pre = w[5].split(",")
+            for i in range(len(pre)):
+                if len(pre) > 1:
+                    out.append(" ".join(w[:5] + [",".join(pre[:i] + pre[i + 1:])]))
+            for i, q in enumerate(pre):
+                if q != "-":
+                    out.append(" ".join(w[:5] + [",".join(pre[:i] + ["-"] + pre[i + 1:])]))
+            if w[4] != "0":
+                out.append(" ".join(w[:4] + ["0", w[5]]))
+            if w[3] != "-":
+                h = w[3]
+                for k in (64, 16, 4, 2):
+                    if len(h) > k:
+                        out.append(" ".join(w[:3] + [h[k:], w[4], w[5]]))
+                        out.append(" ".join(w[:3] + [h[:-k], w[4], w[5]]))
         elif w[1] == "enc" and w[2] != "-":
             ps = w[2].split(",")
             for i in range(len(ps)):
@@ -347,6 +586,10 @@ class C13(Prop):
             if w[3] != "-":
                 out.append(" ".join(w[:3] + [w[3][:-2] or "-", w[4]]))
                 out.append(" ".join(w[:3] + [w[3][2:] or "-", w[4]]))
+                for k in (16, 64, 256):
+                    if len(w[3]) > k:
+                        out.append(" ".join(w[:3] + [w[3][k:], w[4]]))
+                        out.append(" ".join(w[:3] + [w[3][:-k], w[4]]))
         elif w[1] in ("apply2", "cell") and len(w) >= 4:
             for j in (len(w) - 2, len(w) - 1):
                 if w[j] != "-":
